@@ -57,6 +57,7 @@ Lemma add_apply_nocrash typs : add_apply typs <> Crash.
 Proof.
   unfold add_apply. split_args typs; try discriminate.
   destruct a; try discriminate.
+  destruct variadic; cbn [negb need]; [discriminate|].
   destruct (1 <=? alen ps) eqn:E; cbn [need]; [|discriminate].
   apply Nat.leb_le in E. apply at_last_nocrash; [lia|]. intros t. crush.
 Qed.
@@ -71,6 +72,7 @@ Lemma compose_sigs_nocrash typs : compose_sigs typs <> inr Crash /\ compose_sigs
 Proof.
   induction typs as [|t r [IH1 IH2]]; cbn; [split; discriminate|].
   destruct t; try (split; discriminate).
+  destruct variadic; [split; discriminate|].
   destruct (alen rs =? 0) eqn:E; [split; discriminate|].
   apply Nat.eqb_neq in E.
   destruct (anth_some rs (alen rs - 1)) as [e ->]; [lia|].
